@@ -1015,7 +1015,7 @@ def run_item(item):
     return out
 
 
-def make_rules_for_ast(shape, ast, rules, rng, layout_pool):
+def make_rules_for_ast(shape, ast, rules, rng, layout_pool, brackets=False):
     """the policy an AST is run against; for eval() shapes each rule carries a sub-expression (AST + rendered text)"""
     if shape.name != "eval":
         return {"ast": ast, "rules": rules}
@@ -1023,6 +1023,11 @@ def make_rules_for_ast(shape, ast, rules, rng, layout_pool):
     rule_asts, out_rules = [], []
     for rule in rules:
         sub, sub2 = g.boolean(1), g.boolean(1)
+        if brackets or rng.random() < 0.25:
+            # a stored sub-expression that itself begins and ends with a bracket: (A) || (B), (A) && (B), (A)
+            sub = rng.choice([B(rng.choice(["or", "or", "and"]), ("paren", g.boolean(1)), ("paren", g.boolean(1))), ("paren", sub)])
+        if brackets and rng.random() < 0.5:
+            sub2 = B(rng.choice(["or", "and"]), ("paren", g.bool_atom()), ("paren", g.bool_atom()))
         txt = render_inline(tokens(sub), rng.choice(layout_pool), rng)
         txt2 = render_inline(tokens(sub2), rng.choice(layout_pool), rng)
         rule_asts.append({"p.sub_rule": sub, "p.rule2": sub2})
@@ -1072,6 +1077,29 @@ def build_items(ctx, deep):
     forms = ("eval(X)", "eval( X )", "eval (X)", "eval(X )", "eval( X)", "eval  (  X  )", "eval\t(\tX\t)")
     alist = [AND(("evalform", "p.sub_rule", form), B("or", B("eq", ("attr", R("r.obj"), "name"), R("p.obj")), ("evalform", "p.rule2", forms[(i + 3) % len(forms)]))) for i, form in enumerate(forms)]
     items.append(dict(shape="eval", rules=rules, groups=groups, reqs=reqs[:3], asts=[make_rules_for_ast(shape, a, rules, r2, ["single"]) for a in alist], layouts=["tight", "single"], seed=r2.getrandbits(32), stream="main"))
+    # (5) sub-expressions stored in the rule that begin and end with a bracket, under &&, || and ! in the matcher:
+    # eval() stands for the WHOLE stored expression, whatever its own bracketing
+    for chunk in range(10 if deep else 3):
+        r2 = random.Random(rng.getrandbits(32))
+        rules, groups, reqs = gen_universe(shape, r2)
+        ev, ev2 = ("eval", "p.sub_rule"), ("eval", "p.rule2")
+        name_ok = B("eq", ("attr", R("r.obj"), "name"), R("p.obj"))
+        alist = [shape.base, AND(ev, name_ok), AND(name_ok, ev), B("and", ("not", ev), name_ok), B("or", B("and", name_ok, ev), B("and", ev2, B("eq", R("r.act"), R("p.act")))), B("and", ev, ev2)]
+        items.append(dict(shape="eval", rules=rules, groups=groups, reqs=reqs[:5], asts=[make_rules_for_ast(shape, a, rules, r2, ["single", "tight", "double"], brackets=True) for a in alist], layouts=["tight", "single"], seed=r2.getrandbits(32), stream="main"))
+    # (6) string literals with blanks in them (runs of blanks, leading / trailing blank, TAB): a literal is a value, its
+    # blanks are not layout
+    acl = SHAPES["acl"]
+    blanky = ["a  b", " a", "a ", "a\tb", "a b", "x   y  z", "  "]
+    for chunk in range(4 if deep else 1):
+        r2 = random.Random(rng.getrandbits(32))
+        rules = [[r2.choice(blanky + SUBS), r2.choice(POBJS[:2] + blanky), r2.choice(ACTS)] for _ in range(3)]
+        reqs = [[r2.choice(blanky), r2.choice(OBJS[:2] + blanky), r2.choice(ACTS)] for _ in range(4)] + [["a b", "a b", "read"], ["a  b", "a  b", "read"]]
+        alist = []
+        for lit in blanky:
+            other = r2.choice(blanky)
+            alist.append(B("or", B("eq", R("r.sub"), S(lit)), B("and", B("eq", R("r.obj"), S(other)), B("ne", R("p.sub"), S(lit)))))
+            alist.append(B("in", R("r.sub"), ("tuple", [S(lit), S("alice")])))
+        items.append(dict(shape="acl", rules=rules, groups={}, reqs=reqs, asts=[{"ast": a, "rules": rules} for a in alist], layouts=fixed if deep else ["tight", "single", "double", "cont-before", "comment", "tab"], seed=r2.getrandbits(32), stream="main"))
     return items
 
 
@@ -1325,7 +1353,7 @@ def run(ctx):
         "Lean model (exhaustive) + seeded random ASCII text; end-to-end: every ACL expression of depth <= 2 (10 atoms, !, &&, ||) x fixed layouts, "
         "and typed random expressions of depth <= 3 for 9 model shapes x layouts (tight / single / double / TAB / continuation before or after "
         "&& and || / trailing comment / random gaps) x config layouts, each on single-rule policies and on a multi-rule policy (enforce_ex "
-        "explanation), against Lean evalExpr; environment streams: role functions after grants / revocations / a swapped role manager / reload / clear "
+        "explanation), against Lean evalExpr, incl. eval() sub-expressions that begin and end with a bracket and string literals with blanks in them; environment streams: role functions after grants / revocations / a swapped role manager / reload / clear "
         "against the Lean enforcer model, and 2-4 enforcers per process registering different functions under one name (one overriding keyMatch), each "
         "re-checked after every later registration; non-trivial = the expression is true of (request, rule); distinct by (shape, matcher text, request, rule)"
     )
